@@ -14,9 +14,9 @@ Local Open Scope string_scope.
 (* the shape the model transcribes *)
 Lemma rs_shape :
   rs_states = ["stateActive"; "stateClosing"; "stateClosed"] /\
-  rs_guards = [("isClosing", "s.state >= stateClosing"); ("isClosed", "s.state >= stateClosed");
-               ("addInstance", "s.state >= stateClosing"); ("Stop", "s.state == stateClosed");
-               ("GracefulStop", "s.state != stateActive")].
+  rs_guards = [("isClosing", "state >= stateClosing"); ("isClosed", "state >= stateClosed");
+               ("addInstance", "state >= stateClosing"); ("Stop", "state == stateClosed");
+               ("GracefulStop", "state != stateActive")].
 Proof. split; reflexivity. Qed.
 
 Inductive rstate := Active | Closing | Closed.
